@@ -36,6 +36,11 @@ def pncrename(ifile, type_old_new):
     outf = getvarpnc(ifile, None)
     t, o, n = type_old_new.split(',')
     if t in ('d', 'dimension'):
+        if n != o and n in outf.dimensions:
+            # as renameDimension: the variables of both would share one length
+            raise ValueError(
+                'Cannot rename dimension %s to %s; %s already exists' %
+                (o, n, n))
         outf.dimensions[n] = outf.dimensions[o]
         del outf.dimensions[o]
         for k, v in outf.variables.items():
